@@ -203,6 +203,7 @@ func runC19(r *Run, stratum string) *Violation {
 	}
 	execInInc := map[int]int{}     // expected index -> incarnation that executed it last
 	redirected := map[int]string{} // expected index -> kind of redirect a node answered
+	migratedSlots := map[int]bool{} // slots that have been under migration at some point of the run
 	scan := func() {
 		for ; scanned < len(l.topo.Log); scanned++ {
 			e := l.topo.Log[scanned]
@@ -249,7 +250,9 @@ func runC19(r *Run, stratum string) *Violation {
 				sig := "per-key order broken: a command took effect before its predecessor on the same key"
 				// pipelined sending: the predecessor may still be queued at the node a stale slot map routed it to (its
 				// MOVED answer comes later) while the next batch, routed by the refreshed map, already executes
-				if _, red := redirected[mi]; !stable && (red || cfg.Pipeline) {
+				// only keys of a slot that has been under migration are affected: a key whose slot never moved has one
+				// node, one ordered per-node pipeline, and no redirect to be overtaken at
+				if _, red := redirected[mi]; !stable && (red || (cfg.Pipeline && migratedSlots[simredis.HashSlot([]byte(k))])) {
 					sig = "cluster target during slot migration: a redirected or stale-routed command was overtaken by a later, already pipelined command of the same key"
 				}
 				setV("C19.skip_or_invert", sig, "key %q: [%s] executed (node %d) while its predecessor [%s] has not been executed since the last rewind (redirect seen for it: %q)", k, fmtCmd(e.Name, e.Args), e.Node, fmtCmd(missing.Name, missing.Args), redirected[mi])
@@ -282,6 +285,7 @@ func runC19(r *Run, stratum string) *Violation {
 				slot := simredis.HashSlot(k)
 				to := (l.topo.Owner[slot] + 1 + s.Choose("migto", 2)) % len(l.topo.Nodes)
 				l.topo.BeginMigrate(slot, to)
+				migratedSlots[slot] = true
 				migrations++
 				r.W.Fault("slot_migration")
 				r.Logf("MIGRATE begin slot %d: node %d -> node %d", slot, l.topo.Owner[slot], to)
